@@ -64,6 +64,7 @@ def run(ck: Checker, prog: Program, tier: str):
     ck.guard(S.check_accessor_purity, ck, prog, cls, "C05.R2", 13)
     ck.guard(S.check_estimators, ck, prog, "C05.R3")
     ck.guard(S.check_alias_discipline, ck, prog, "C05.R3", floor=3)
+    ck.guard(S.check_distribution_names, ck, prog, "C05.R3")
     ck.guard(S.check_accessor_table, ck, prog, cls, "C05.R3", TABLE, GUARDS)
     ck.guard(_cov, ck, prog, cls, "C05.R3", weighted=False)
     ck.guard(S.check_mask_lockstep, ck, prog, "C05.R4")
